@@ -289,6 +289,7 @@ class Obj:
         o.attrs = dict(self.attrs)
         o.cal = self.cal
         o.site = self.site
+        o.copied_from = getattr(self, "copied_from", None)
         return o
 
     def __repr__(self):
